@@ -134,6 +134,9 @@ def to_sessions(recs, rng, targets=("engine", "pool"), chain=1, sample=None, btp
                     for d in decl:      # never where one rule may run twice at once (its counter would be the caller's data race)
                         if trng.random() < 0.25:
                             d["rk"] = "loop"
+                for d in decl:
+                    if "rk" not in d and trng.random() < 0.15:
+                        d["rk"] = "range"
                 # parallel models are steered by gates (maximal overlap) - except one session in five, which runs at its natural
                 # speed (a rule that fails at once is then over before its siblings have started)
                 gated = any(c["method"] not in SEQ_ONLY for c in calls) and rng.random() < 0.8
